@@ -80,7 +80,8 @@ RegistryAgreement ==
 \* contexts of a call (car a b) relative to a binding of the name `car` taking two arguments
 Contexts == {"none", "global-before", "global-after", "let-body", "let-value", "let-after",
              "flet-body", "flet-other-fn-body", "flet-own-body", "labels-body", "labels-own-body", "labels-other-fn-body",
-             "lambda-param-body", "defun-param-body", "macrolet-body", "let*-later-value", "let*-own-value"}
+             "lambda-param-body", "defun-param-body", "macrolet-body", "let*-later-value", "let*-own-value",
+             "flet-param-body", "labels-param-body", "lambda-optional-param-body", "let-value-lambda"}
 \* does the call reach the shadowing binding (TRUE) or the builtin (FALSE)?
 Reach(ctx) ==
   CASE ctx = "none" -> FALSE
@@ -100,6 +101,12 @@ Reach(ctx) ==
     [] ctx = "macrolet-body" -> TRUE
     [] ctx = "let*-later-value" -> TRUE
     [] ctx = "let*-own-value" -> FALSE
+    [] ctx = "flet-param-body" -> TRUE        \* the call stands in the binding list of the flet, inside a function whose PARAMETER has the name
+    [] ctx = "labels-param-body" -> TRUE
+    [] ctx = "lambda-optional-param-body" -> TRUE
+    \* FOLLOWS THE CODE (named deviation, the C01 finding let-value-closure): a lambda made in a let VALUE keeps the
+    \* let's own environment, so a call in its body reaches the sibling binding once the lambda is called from the body
+    [] ctx = "let-value-lambda" -> TRUE
 \* what the arity checks must say about (car x1..xk) in ctx when the shadow takes exactly two arguments
 \* and the builtin exactly one:  "must" report, "mustnot" report
 Expected(ctx, k) ==
